@@ -21,8 +21,11 @@ V == INSTANCE Version WITH CacheVersions <- {}, cacheN <- 0, cacheG <- 0, last <
 Kinds  == {"plain", "na", "list", "dict", "grid", "xstr"}
 Only3  == {"na", "list", "dict", "grid", "xstr"}
 RowPaths  == {"append", "insert", "extend", "iadd", "setitem",
-              "extend_tuple", "extend_iter", "extend_grid", "iadd_grid"}   \* the other argument forms of extend / +=
+              "extend_tuple", "extend_iter", "extend_grid", "iadd_grid",   \* the other argument forms of extend / +=
+              "append_undeclared", "setitem_undeclared",                   \* the value sits under a key that is no column (yet)
+              "copy_append", "copy_setitem"}                               \* the store goes to a deep copy of the grid
 MetaPaths == {"meta_set", "meta_append", "meta_extend", "colmeta_set", "colmeta_append", "col_assign", "col_add_item",
+              "copy_meta_set", "copy_colmeta_set", "copy_col_assign",
               "meta_overwrite", "colmeta_overwrite", "meta_update", "col_reassign"}   \* overwriting an existing tag / column
 CtorPaths == {"ctor_meta", "ctor_colmeta"}
 Paths == RowPaths \cup MetaPaths
